@@ -259,6 +259,13 @@ impl Property for C17 {
 
 pub struct C18;
 
+#[derive(Clone, Debug, Serialize, Deserialize)]
+pub enum C18Case {
+    Static(StaticCase),
+    /// a history on DynamicPreferredSemanticsSolver: per-query call bound + hard budget
+    Dynamic(crate::props::dynamic::DynCase),
+}
+
 fn base_count(af: &RefAf, sem: Sem, enc: Enc) -> u64 {
     let complete = af.all_co().len() as u64;
     match (sem, enc) {
@@ -289,8 +296,8 @@ impl Property for C18 {
     }
     fn runs(&self, tier: Tier) -> u64 {
         match tier {
-            Tier::Quick => 1_500_000,
-            Tier::Thorough => 30_000_000,
+            Tier::Quick => 600_000,
+            Tier::Thorough => 12_000_000,
         }
     }
     fn gen(&self, run_seed: u64, _tier: Tier) -> Value {
@@ -302,6 +309,11 @@ impl Property for C18 {
             _ => Policy::MaxTrue,
         };
         let oracle = OracleCfg { policy, seed: rng.next_u64() >> 16, unused_none: true, nvars_counts_assumed: rng.chance(2, 3) };
+        if rng.chance(3, 20) {
+            use crate::props::dynamic::{gen_history, DynCase, DynKind};
+            let steps = gen_history(&mut rng, DynKind::Preferred, 0);
+            return serde_json::to_value(C18Case::Dynamic(DynCase { solver: DynKind::Preferred, factor: 0, string_labels: rng.bool(), oracle, backend: Backend::Sim, steps })).unwrap();
+        }
         let mut c = one_query_case(&mut rng, 60, oracle, Backend::Sim);
         // SAT-based semantics only (GR makes no call); DC-PR is CO, DS-CO is GR: keep them, they are cheap
         if c.sem == Sem::GR {
@@ -314,10 +326,29 @@ impl Property for C18 {
                 s
             });
         }
-        serde_json::to_value(c).unwrap()
+        serde_json::to_value(C18Case::Static(c)).unwrap()
     }
     fn exec(&self, case: &Value) -> RunResult {
-        let case: StaticCase = serde_json::from_value(case.clone()).expect("C18 case");
+        let case: C18Case = serde_json::from_value(case.clone()).expect("C18 case");
+        let case = match case {
+            C18Case::Static(c) => c,
+            C18Case::Dynamic(d) => {
+                let mut r = RunResult::default();
+                if d.string_labels {
+                    crate::props::dynamic::exec_t("C18", &d, &crate::cases::string_label, &mut r);
+                } else {
+                    crate::props::dynamic::exec_t("C18", &d, &crate::cases::usize_label, &mut r);
+                }
+                // only the liveness classes belong to C18; wrong answers are C08's business
+                r.violations.retain(|v| v.class == "C18/call-bound" || v.class == "C18/step-budget");
+                if r.counters.get("dynamic_preferred_queries_bounded").copied().unwrap_or(0) >= 2 {
+                    let mut dg = Digest::default();
+                    dg.str(&serde_json::to_string(&d).unwrap());
+                    r.nontrivial = Some(dg);
+                }
+                return r;
+            }
+        };
         let case = normalise(&case);
         let mut r = RunResult::default();
         if case.queries.len() != 1 {
@@ -427,8 +458,17 @@ impl Property for C18 {
         r
     }
     fn shrink(&self, case: &Value) -> Vec<Value> {
-        let case: StaticCase = serde_json::from_value(case.clone()).unwrap();
-        shrink_static(&case).into_iter().filter(|c| c.oracle.policy != Policy::Cadical).map(|c| serde_json::to_value(c).unwrap()).collect()
+        let case: C18Case = serde_json::from_value(case.clone()).unwrap();
+        match case {
+            C18Case::Static(case) => shrink_static(&case).into_iter().filter(|c| c.oracle.policy != Policy::Cadical).map(|c| serde_json::to_value(C18Case::Static(c)).unwrap()).collect(),
+            C18Case::Dynamic(d) => (0..d.steps.len())
+                .map(|i| {
+                    let mut s = d.steps.clone();
+                    s.remove(i);
+                    serde_json::to_value(C18Case::Dynamic(crate::props::dynamic::DynCase { steps: s, ..d.clone() })).unwrap()
+                })
+                .collect(),
+        }
     }
     fn rule(&self) -> String {
         "case = one single-argument query (or SE) of a SAT-based static solver configuration on a generated framework (60 % single-component), answered over SimSat under adversarial oracle policies (MinTrue: longest grow-until-UNSAT chains; Biased; Uniform). SimSat attributes calls to solver instances (one per component per search); RefSem supplies |base| (conflict-free / admissible / complete sets according to the encoder) and |PR| per component. Checked post hoc over the event log: calls per instance <= max over components of the stated bound, total calls <= sum of the bounds, and for PR/ID no projected model returned twice within one search; online: hard budget 20*bound+2000 calls (a non-terminating loop becomes a finite replayable failure). Non-trivial = >= 2 arguments and >= 2 SAT calls; distinct = distinct case".into()
@@ -437,7 +477,7 @@ impl Property for C18 {
         vec![
             "bounds as written in the property: PR <= |base|+|PR|+1, ID <= 2|base|+|PR|+2, SST/STG <= (n+2)|base|+3, CO/ST <= 2 per component; DC-PR is judged as CO and DS-CO as GR (the procedures that answer them)".into(),
             "instance-to-component attribution is not observed: each instance is compared with the largest per-component bound, the total with the sum".into(),
-            "DynamicPreferredSemanticsSolver is covered by the C08 histories under the same hard call budget".into(),
+            "15 % of the runs are update/query histories on DynamicPreferredSemanticsSolver: every query must stay within |CO|+|PR|+1 SAT calls on the current framework (one search over the whole framework) and within the hard budget".into(),
         ]
     }
     fn real_vs_stub(&self) -> Value {
